@@ -99,6 +99,17 @@ class P:
                 s_ = bytes(rnd.choice(chars) for _ in range(rnd.randint(0, 3)))
                 bc.append(mk([p], rnd.choice(MODES), s_))
 
+        # lists of several patterns, empty patterns at every place: the list matches what its alternatives match
+        mc = []
+        SHORT = [b"", b"", b"a", b"b", b"*", b"?", b"\\*", b"[ab]", b"a*", b"ab", b"[!a]", b"\\", b"[", b"\n"]
+        for n in (2, 3):
+            for t in itertools.product(SHORT[1:] if n == 2 else SHORT[1:8], repeat=n):
+                for s in (b"", b"a", b"b", b"ab", b"ba", b"*", b"\n"):
+                    mc.append(mk(list(t), rnd.choice(MODES), s))
+        for _ in range(3000 if tier == "quick" else 60000):
+            t = [rnd.choice(SHORT) for _ in range(rnd.randint(2, 5))]
+            mc.append(mk(t, rnd.choice(MODES) if rnd.random() < 0.9 else rnd.randint(0, 15), rnd.choice([b"", b"a", b"b", b"ab", b"ba", b"aab", b"*", b"\n"])))
+
         def cmp(c, i, m):
             return "unmodelled" in m or i == m
 
@@ -111,6 +122,8 @@ class P:
                  "distribution": {"patterns_le": P_, "subjects_le": S_, "modes": 4, "cases": nex}},
                 {"name": "random", "harness": "c12", "driver": "c12", "cases": rc, "compare": cmp, "nontrivial": nontrivial,
                  "distribution": {"cases": nrand}},
+                {"name": "pattern-lists", "harness": "c12", "driver": "c12", "cases": mc, "compare": cmp, "nontrivial": lambda c: True,
+                 "distribution": {"cases": len(mc), "shape": "2..5 patterns drawn from short patterns including the empty one, at every place of the list"}},
                 {"name": "brackets", "harness": "c12", "driver": "c12", "cases": bc, "compare": cmp, "nontrivial": nontrivial,
                  "distribution": {"cases": len(bc), "shape": "prefix [ neg? members{1..4} ] suffix; members: literal/escaped/range/escaped-dash/named class"}}]
 
